@@ -81,11 +81,15 @@ def focus_for(prop):
             sc['faults'] = []
             sc['cancel'] = None
 
-    def many(sc, rng):
-        pass
+    def barrier(sc, rng):
+        # shutdown() without cancel entered while several transfers are in flight, some failing
+        if sc['cancel'] is None or rng.random() < 0.5:
+            sc['cancel'] = None
+            sc['early_shutdown'] = rng.choice([0, 0, 1, 2, 5, 10, 25])
+            sc['fresh_after'] = False
 
     return {'C03': None, 'C04': reentrant, 'C05': multipart, 'C06': downloads, 'C07': cancels, 'C08': None,
-            'C09': None, 'C10': streams, 'C11': streams, 'C12': None, 'C18': None, 'C01': multipart, 'C02': downloads}.get(prop)
+            'C09': None, 'C10': streams, 'C11': streams, 'C12': None, 'C18': barrier, 'C01': multipart, 'C02': downloads}.get(prop)
 
 
 def _worker(args):
